@@ -52,9 +52,9 @@ func fixedBases() []struct {
 }
 
 func runExhaust(ctx context.Context, w *out.W, tier, tmp, outDir, only string) {
-	w.Rule = "fixed populated bases x every edit kind x table x 3 target choices (singles) and every ordered pair of edit kinds (pairs); non-trivial as in the api stage"
+	w.Rule = "fixed populated bases x every edit kind x table x 2 target choices (singles; 8 in thorough) and every ordered pair of edit kinds (pairs); non-trivial as in the api stage"
 	w.Exhaust = true
-	seeds := 3
+	seeds := 2
 	pairSeeds := 1
 	if tier == "thorough" {
 		seeds, pairSeeds = 8, 4
@@ -107,10 +107,11 @@ func runExhaust(ctx context.Context, w *out.W, tier, tmp, outDir, only string) {
 			}
 		}
 	}
-	ms := []Mode{{"mem", true, "none"}, {"mem", true, "file"}, {"mem", false, "file"}}
+	ms := []Mode{{Store: "mem", FK: true, Tx: "none"}, {Store: "mem", FK: true, Tx: "file"}, {Store: "mem", FK: false, Tx: "file"}}
 	runCases(ctx, w, cases, func(i int) []Mode {
 		if cases[i].ID[0] == 'x' {
-			return append(ms, Mode{"mem", false, "none"}, Mode{"file", true, "file"}, Mode{"mem", true, "rawtx"})
+			return append(ms, Mode{Store: "mem", FK: false, Tx: "none"}, Mode{Store: "file", FK: true, Tx: "file"}, Mode{Store: "mem", FK: true, Tx: "rawtx"},
+				Mode{Store: "mem", FK: true, Tx: "prefix", K: 1 + i%4}, Mode{Store: "mem", FK: i%2 == 0, Tx: "prefix", K: 3 + i%5})
 		}
 		return ms[i%3 : i%3+1]
 	}, tmp, outDir)
